@@ -49,7 +49,7 @@ FID = {"packed": "packed-overaligned-descriptor", "overaligned": "packed-overali
        "bitfield-unit-skips-member": "bitfield-unit-skips-member",
        "bitfield-unit-overlap": "bitfield-unit-overlap-descriptor"}
 FLAG_PRIORITY = ["valist-member", "flexible", "packed", "overaligned", "unnamed-bitfield",
-                 "bitfield-unit-skips-member", "bitfield-smaller-unit", "bitfield-unit-overlap"]
+                 "bitfield-smaller-unit", "bitfield-unit-overlap", "bitfield-unit-skips-member"]
 FID_SUBWORD = "subword-arg-not-extended"
 
 bump = c06.bump
@@ -329,8 +329,29 @@ def observe_oracle(defs, tid, ls, tg):
             ts = SC[sc][3]
             if lo is None or n != w or not contig or len(x) != vals[0]:
                 return None
-            fl.append((lo // (8 * ts) * ts, ts, "i"))
+            fl.append(("bf", lo, w, ts))
     return vals[0], vals[1], fl
+
+
+def merge_units(ob, spec):
+    """The oracle shows the bits of a bit-field, Spec/QbeLayout its storage unit (a sizeof T-aligned unit
+    relative to the enclosing aggregate, which the image of the whole object does not reveal inside packed or
+    nested aggregates): accept the spec's unit when it has the declared type's size and contains the observed
+    bits.  Everything else must be equal.  Returns the oracle layout with units, or None on a disagreement."""
+    if ob[0] != spec[0] or ob[1] != spec[1] or len(ob[2]) != len(spec[2]):
+        return None
+    fl = []
+    for o, s in zip(ob[2], spec[2]):
+        if o[0] == "bf":
+            _, lo, w, ts = o
+            if s[1] != ts or s[2] != "i" or not (8 * s[0] <= lo and lo + w <= 8 * (s[0] + ts)):
+                return None
+            fl.append(tuple(s))
+        else:
+            if tuple(o) != tuple(s):
+                return None
+            fl.append(tuple(o))
+    return ob[0], ob[1], fl
 
 
 def parse_model_type(ln):
@@ -429,9 +450,14 @@ def type_batch(job):
                     continue
                 counts["oracle"] = counts.get("oracle", 0) + 1
                 m = model[(tid, tg)]
-                if m["status"] == "ok" and (ob[0], ob[1], ob[2]) != (m["c"][0], m["c"][1], m["c"][2]):
+                if m["status"] != "ok":
+                    continue
+                ob2 = merge_units(ob, m["c"])
+                if ob2 is None:
                     events.append({"kind": "spec-vs-oracle", "compiler": cname, "target": tg, "tid": tid,
                                    "oracle": ob, "spec": m["c"]})
+                    continue
+                ob = ob2
                 oracle.setdefault((tid, tg), ob)
                 if cname == "clang":
                     oracle[(tid, tg)] = ob
@@ -493,3 +519,856 @@ def type_batch(job):
     flags = {tid: sorted(set(sum((model[(tid, tg)].get("flags", []) for tg in TARGETS), []))) for tid, t in types}
     sizes = {tid: model[(tid, TARGETS[0])]["c"][0] for tid, t in types if model[(tid, TARGETS[0])]["status"] == "ok"}
     return {"events": events, "counts": counts, "flags": flags, "sizes": sizes}
+
+
+# ------------------------------------------------------------------ type generator
+def I(n):
+    return ("sc", n)
+
+
+class TGen:
+    """struct/union types.  mode 'main' avoids the recorded defective classes syntactically (no packed, no
+    _Alignas, no unnamed bit-field, no flexible array, no va_list member; bit-fields in runs of one storage-unit
+    size after a member that ends on a unit boundary); the other modes aim at one class each."""
+
+    def __init__(self, rng, mode="main"):
+        self.rng = rng
+        self.mode = mode
+        self.n = 0
+
+    def name(self):
+        self.n += 1
+        return "m%d" % self.n
+
+    def scalar(self):
+        r = self.rng
+        x = r.random()
+        if x < 0.3:
+            return I(r.choice(["float", "double"]))
+        if x < 0.42:
+            return I(r.choice(["voidp", "charpp", "fnp", "fp_t"]))
+        return I(r.choice(INT_SCALARS))
+
+    def bfrun(self, fields, free):
+        r = self.rng
+        if free:
+            for _ in range(r.randint(1, 3)):
+                base = r.choice(INT_SCALARS)
+                bits = SC[base][3] * 8
+                w = 1 if base == "_Bool" else r.choice([1, 3, 7, 8, 9, bits - 1, bits, r.randint(1, bits)])
+                fields.append((self.name(), I(base), 0, min(w, bits)))
+            return
+        size = r.choice([1, 2, 4, 4, 8])
+        bases = [k for k in INT_SCALARS if SC[k][3] == size and k != "_Bool"]
+        left = size * 8
+        for _ in range(r.randint(1, 4)):
+            w = r.randint(1, max(1, min(left, size * 8)))
+            fields.append((self.name(), I(r.choice(bases)), 0, w))
+            left = left - w if w <= left else size * 8 - w
+            if left <= 0:
+                left = size * 8
+
+    def su(self, depth, top=False):
+        r = self.rng
+        mode = self.mode
+        is_union = r.random() < 0.25
+        pack = mode == "packed" and not is_union and (top or r.random() < 0.3)
+        nf = r.randint(1, 6 if top else 4)
+        fields = []
+        for i in range(nf):
+            x = r.random()
+            if not pack and ((mode == "bitmix" and x < 0.5) or (mode != "bitmix" and x < 0.22)):
+                if is_union:
+                    base = r.choice([k for k in INT_SCALARS if k != "_Bool"])
+                    fields.append((self.name(), I(base), 0, r.randint(1, SC[base][3] * 8)))
+                else:
+                    self.bfrun(fields, free=(mode == "bitmix"))
+                continue
+            if mode == "unnamed" and not pack and x < 0.45:
+                base = r.choice(["int", "uint", "long", "char", "ushort", "ullong", "short"])
+                fields.append((None, I(base), 0, r.choice([0, 0, 1, 5, SC[base][3] * 8])))
+                continue
+            if mode == "valist" and x < 0.4:
+                fields.append((self.name(), I("valist"), 0, None))
+                continue
+            ft = self.mtype(depth)
+            anon = ft[0] == "su" and r.random() < 0.3
+            al = 0
+            if mode == "alignas" and r.random() < 0.4:
+                lo = c06.t_align_hi(ft)
+                al = r.choice([a for a in (2, 4, 8, 16, 32) if a >= lo] or [0])
+            fields.append((None if anon else self.name(), ft, al, None))
+        if mode == "flex" and not is_union and (top or r.random() < 0.3):
+            fields.append((self.name(), ("arr", self.scalar(), None), 0, None))
+        if all(f[3] is not None and f[0] is None for f in fields):
+            fields.append((self.name(), self.scalar(), 0, None))
+        return ("su", is_union, pack, fields)
+
+    def mtype(self, depth):
+        r = self.rng
+        x = r.random()
+        if depth < 3 and x < 0.25:
+            t = self.su(depth + 1)
+            return c06.strip_flex(t) if c06.has_flex(t) else t
+        if x < 0.45:
+            if depth < 3 and r.random() < 0.4:
+                e = self.mtype(depth + 1)
+                if c06.has_flex(e):
+                    e = c06.strip_flex(e)
+            else:
+                e = self.scalar()
+            return ("arr", e, r.choice([1, 2, 2, 3, 3, 4, 5, 7, 16]))
+        return self.scalar()
+
+    def toplevel(self):
+        while True:
+            self.n = 0
+            t = self.su(1, top=True)
+            if n_leaves(t) <= 80:
+                return t
+
+
+def t_float_mix(t, acc=None):
+    acc = acc if acc is not None else set()
+    if t[0] == "sc":
+        acc.add("float" if t[1] in FLOATS else ("ptr" if not SC[t[1]][5] else "int"))
+    elif t[0] == "arr":
+        t_float_mix(t[1], acc)
+    else:
+        for (n, ft, al, w) in t[3]:
+            if w is not None:
+                acc.add("bitfield")
+            else:
+                t_float_mix(ft, acc)
+    return acc
+
+
+CORPUS_TYPES = [
+    # the recorded witnesses of the known findings (each reproduced on every run)
+    ("packed-overaligned-descriptor", ("su", False, True, [("a", I("char"), 0, None), ("b", I("long"), 0, None), ("c", I("short"), 0, None)])),
+    ("packed-overaligned-descriptor", ("su", False, False, [("a", I("char"), 0, None), ("b", I("int"), 16, None)])),
+    ("bitfield-unit-overlap-descriptor", ("su", False, False, [("a", I("llong"), 0, None), ("b", ("arr", I("float"), 3), 0, None), ("c", I("uchar"), 0, None),
+                                                               ("d", I("ulong"), 0, 5), ("e", I("ushort"), 0, None)])),
+    ("bitfield-unit-skips-member", ("su", False, False, [("a", I("int"), 0, 3), ("c", ("arr", I("char"), 7), 0, None)])),
+    ("bitfield-smaller-unit-merge", ("su", False, False, [("a", I("int"), 0, 3), ("b", I("char"), 0, 3)])),
+    ("unnamed-bitfield-gap-descriptor", ("su", False, False, [("a", I("char"), 0, None), (None, I("int"), 0, 0), ("b", I("char"), 0, None)])),
+    ("flexible-array-descriptor", ("su", False, False, [("n", I("int"), 0, None), ("a", ("arr", I("int"), None), 0, None)])),
+    ("valist-member-descriptor", ("su", False, False, [("ap", I("valist"), 0, None), ("x", I("int"), 0, None)])),
+    # shapes of tests/struct-passing*.c, union-passing.c and a few boundary cases
+    (None, ("su", False, False, [("x", I("int"), 0, None), ("y", I("float"), 0, None)])),
+    (None, ("su", False, False, [("a", ("arr", I("float"), 4), 0, None)])),
+    (None, ("su", False, False, [("a", I("double"), 0, None), ("b", I("char"), 0, None)])),
+    (None, ("su", True, False, [("i", I("int"), 0, None), ("f", I("float"), 0, None), ("q", ("su", False, False, [("s", I("short"), 0, None), ("d", I("double"), 0, None)]), 0, None)])),
+    (None, ("su", False, False, [("a", I("int"), 0, 3), ("b", I("uint"), 0, 5), ("c", I("int"), 0, 24), ("d", I("float"), 0, None)])),
+    (None, ("su", False, False, [("x", ("arr", ("su", False, False, [("a", I("short"), 0, 3), ("c", I("ushort"), 0, 13)]), 2), 0, None), ("p", I("voidp"), 0, None)])),
+    (None, ("su", False, False, [("c", I("char"), 0, None), ("a", I("int"), 0, 3)])),      # benign: plain member inside the unit
+    (None, ("su", False, False, [("a", I("char"), 0, 3), ("b", I("int"), 0, 5)])),         # benign: unit grows
+    (None, ("su", False, False, [("a", I("int"), 0, 9), ("b", I("char"), 0, 3)])),
+    (None, ("su", False, False, [("m", ("arr", ("arr", I("short"), 3), 2), 0, None), ("z", I("_Bool"), 0, None)])),
+    (None, ("su", False, False, [("a", ("arr", I("char"), 64), 0, None)])),
+    (None, ("su", False, False, [("a", ("arr", I("char"), 65), 0, None)])),
+]
+
+
+# ------------------------------------------------------------------ running type batches
+def type_replay(tid, t, tg, ev):
+    return {"kind": "descriptor", "target": tg, "program": PRELUDE + type_def(tid, t) + render_use(tid, t),
+            "drv": drv_type(t), "c_layout(size,align,fields)": ev.get("c"), "detail": ev.get("detail")}
+
+
+def probe_type(ck, cproc, t, tg):
+    """single type, spec layout as C layout: first unexplained event or None"""
+    job = {"id": 0, "dir": os.path.join(ck.scratch(), "shrink"), "cproc": cproc, "drv": ck.drv_path(),
+           "types": [(0, t)], "targets": [tg], "oracles": False}
+    try:
+        res = type_batch(job)
+    except Exception:
+        return None
+    for ev in res.get("events", []):
+        if ev["kind"] in ("notok", "diff", "garbage", "rejected"):
+            return ev
+    return None
+
+
+def shrink_type(ck, cproc, t, tg, budget=150):
+    best = probe_type(ck, cproc, t, tg)
+    if best is None:
+        return t, None
+    progress = True
+    while progress and budget > 0:
+        progress = False
+        for v in c06.variants(t):
+            budget -= 1
+            if budget <= 0:
+                break
+            if n_leaves(v) == 0:
+                continue
+            ev = probe_type(ck, cproc, v, tg)
+            if ev is not None:
+                t, best, progress = v, ev, True
+                break
+    return t, best
+
+
+def handle_type_event(ck, cproc, t, ev):
+    tg, kind = ev["target"], ev["kind"]
+    tid = ev["tid"]
+    if kind == "known":
+        det = ev["detail"]
+        ck.report(dict(type_replay(tid, t, tg, ev), what="descriptor does not describe the C type (%s): %s"
+                       % (" ".join(det["flags"]), det["not_ok"])), fid=det["fid"])
+        return
+    if len(ck.violations) >= 3:
+        ck.violations.append(None)
+        return
+    t2, ev2 = shrink_type(ck, cproc, t, tg)
+    if ev2 is None:
+        t2, ev2 = t, ev
+    ev2 = dict(ev2, tid=0 if ev2 is not ev else tid)
+    rp = type_replay(ev2["tid"], t2, tg, ev2)
+    if ev2 is not ev:
+        rp["original_program"] = type_replay(tid, t, tg, ev)["program"]
+    k2 = ev2["kind"]
+    if k2 == "notok":
+        rp["what"] = "the emitted type definition does not describe the C type: " + ev2["detail"]["not_ok"]
+        ck.violation(rp)
+    elif k2 == "diff":
+        bad = ev2["detail"]["not_ok"]
+        if bad is None and isinstance(ev2["detail"]["model"], str) and ev2["detail"]["model"].split()[0] in ("fatal", "error"):
+            bad = "the model predicts the compiler stops (%s) but a definition was emitted" % ev2["detail"]["model"]
+        if bad:
+            rp["what"] = "emittype and Model/AbiDesc.lean disagree and the emitted definition does not describe the C type: " + bad
+            ck.violation(rp)
+        else:
+            rp["what"] = "emittype and Model/AbiDesc.lean disagree although the emitted definition describes the C type"
+            rp["theorem"] = "CprocVerif.C08.desc_size_align_partial / desc_fields_partial"
+            ck.violation(rp, nofail=True)
+    elif k2 == "garbage":
+        rp["what"] = "the emitted type definitions are not a well-formed description: %s" % ev2["detail"]
+        ck.violation(rp)
+    else:
+        rp["what"] = "a valid type passed by value is rejected: %s" % ev2.get("stderr")
+        ck.violation(rp)
+
+
+def run_type_batches(ck, cproc, all_types, label, oracles=True, batch=60):
+    d = os.path.join(ck.scratch(), label)
+    jobs = []
+    idx = list(enumerate(all_types))
+    for k in range(0, len(idx), batch):
+        jobs.append({"id": len(jobs), "dir": d, "cproc": cproc, "drv": ck.drv_path(), "types": idx[k:k + batch],
+                     "targets": TARGETS, "oracles": oracles})
+    spec_bad = []
+    flags, sizes = {}, {}
+    with concurrent.futures.ProcessPoolExecutor(max_workers=min(common.NPROC, 16)) as ex:
+        for job, res in zip(jobs, ex.map(type_batch, jobs)):
+            if "broken" in res:
+                raise Broken(res["broken"])
+            for k, v in res["counts"].items():
+                ck.kb[k] = ck.kb.get(k, 0) + v
+            flags.update(res["flags"])
+            sizes.update(res["sizes"])
+            by = dict(job["types"])
+            for ev in res["events"]:
+                ck.kb["ev:" + ev["kind"]] = ck.kb.get("ev:" + ev["kind"], 0) + 1
+                if ev["kind"] == "spec-vs-oracle":
+                    spec_bad.append((ev, type_def(ev["tid"], by[ev["tid"]])))
+                elif ev["kind"] in ("oracle-rejects", "oracle-unparsed"):
+                    if len(ck.kb.setdefault("oracle_problems", [])) < 5:
+                        ck.kb["oracle_problems"].append({k: (v if k != "tid" else type_def(v, by[v])[:300]) for k, v in ev.items()})
+                else:
+                    handle_type_event(ck, cproc, by[ev["tid"]], ev)
+    if spec_bad:
+        ev, prog = spec_bad[0]
+        raise Broken("Spec/QbeLayout.flattenC disagrees with %s (%s) on %d type(s); first: oracle %s spec %s -- %s"
+                     % (ev["compiler"], ev["target"], len(spec_bad), ev["oracle"], ev["spec"], prog[:400]))
+    return flags, sizes
+
+
+# ------------------------------------------------------------------ signatures and call sites
+# sig = dict(kind='def'|'call'|'vadef', ret=type|None, params=[type], variadic=bool, args=[type], vaargs=[scalar])
+# types here: ('sc', name) | ('arr', type, n) | ('ref', tid)  (by-value use of pool type tid)
+VAARG_TYPES = ["int", "uint", "long", "ulong", "llong", "ullong", "double", "voidp", "charpp", "Ea", "Eb", "Ec", "Ed"]
+ARITH = [k for k in MAIN_SCALARS if SC[k][5] or k in FLOATS]
+
+
+def s_drv(t, pool):
+    if t[0] == "ref":
+        return drv_type(pool[t[1]])
+    if t[0] == "arr":
+        return "A %d %s" % (t[2], s_drv(t[1], pool))
+    return DRV_SC[t[1]]
+
+
+def s_decl(t, name, pool):
+    dims = ""
+    while t[0] == "arr":
+        dims += "[%d]" % t[2]
+        t = t[1]
+    if t[0] == "ref":
+        return "%s T%d %s%s" % (kw(pool[t[1]]), t[1], name, dims)
+    sp, pre, suf = SC[t[1]][:3]
+    return "%s %s%s%s%s" % (sp, pre, name, dims, suf)
+
+
+def sig_c(k, sg, pool):
+    ps = [s_decl(p, "a%d" % i, pool) for i, p in enumerate(sg["params"])]
+    plist = ", ".join(ps + (["..."] if sg["variadic"] else [])) or "void"
+    rt = sg["ret"]
+    if sg["kind"] == "def":
+        if rt is None:
+            return "void f%d(%s) { }\n" % (k, plist)
+        return "extern %s;\n%s(%s) { return r%d; }\n" % (s_decl(rt, "r%d" % k, pool), s_decl(rt, "f%d" % k, pool), plist, k)
+    if sg["kind"] == "vadef":
+        body = "__builtin_va_list ap; __builtin_va_start(ap, a%d); " % (len(ps) - 1)
+        for i, v in enumerate(sg["vaargs"]):
+            body += "%s = __builtin_va_arg(ap, %s); " % (s_decl(I(v), "x%d" % i, pool), s_decl(I(v), "", pool).strip())
+        body += "__builtin_va_end(ap); return a0;"
+        return "int h%d(%s) { %s }\n" % (k, plist, body)
+    out = "%s(%s);\n" % (s_decl(rt, "g%d" % k, pool) if rt is not None else "void g%d" % k, plist)
+    for i, a in enumerate(sg["args"]):
+        out += "extern %s;\n" % s_decl(a, "b%d_%d" % (k, i), pool)
+    out += "void c%d(void) { g%d(%s); }\n" % (k, k, ", ".join("b%d_%d" % (k, i) for i in range(len(sg["args"]))))
+    return out
+
+
+def sig_drv(tg, sg, pool):
+    head = "%s %d %s" % (tg, 1 if sg["variadic"] else 0,
+                         " ; ".join([s_drv(sg["ret"], pool) if sg["ret"] is not None else "void"] + [s_drv(p, pool) for p in sg["params"]]))
+    if sg["kind"] == "call":
+        return ["call " + head + " | " + " ; ".join(s_drv(a, pool) for a in sg["args"])]
+    if sg["kind"] == "vadef":
+        return ["func " + head] + ["vaarg %s %s" % (tg, DRV_SC[v]) for v in sg["vaargs"]]
+    return ["func " + head]
+
+
+class SGen:
+    def __init__(self, rng, pool_ids):
+        self.rng = rng
+        self.pool_ids = pool_ids
+
+    def ptype(self, allow_valist=True):
+        r = self.rng
+        x = r.random()
+        if self.pool_ids and x < 0.3:
+            return ("ref", r.choice(self.pool_ids))
+        if x < 0.38:
+            return ("arr", I(r.choice(MAIN_SCALARS)), r.choice([1, 3, 8]))
+        if allow_valist and x < 0.42:
+            return I("valist")
+        if x < 0.55:
+            return I(r.choice(["float", "double"]))
+        return I(r.choice(MAIN_SCALARS))
+
+    def rtype(self):
+        r = self.rng
+        x = r.random()
+        if x < 0.15:
+            return None
+        if self.pool_ids and x < 0.45:
+            return ("ref", r.choice(self.pool_ids))
+        return I(r.choice([k for k in MAIN_SCALARS if k != "fnp"]))     # `int (*f(void))(void)`: use the typedef fp_t
+
+    def arg_for(self, p):
+        r = self.rng
+        if p[0] == "sc" and p[1] in ARITH and r.random() < 0.5:
+            return I(r.choice(ARITH))
+        return p
+
+    def sig(self, kind):
+        r = self.rng
+        n = r.choice([0, 1, 2, 3, 4, 5, 6, 8, 10, 12])
+        variadic = r.random() < (0.45 if kind == "call" else 0.25)
+        if kind == "vadef":
+            variadic = True
+            n = r.randint(1, 3)
+        if variadic and n == 0:
+            n = 1
+        params = [self.ptype() for _ in range(n)]
+        sg = {"kind": kind, "ret": self.rtype(), "params": params, "variadic": variadic, "args": None, "vaargs": None}
+        if kind == "vadef":
+            sg["ret"] = I("int")
+            params[0] = I("int")
+            if params[-1][0] != "sc" or params[-1][1] in ("valist",):
+                params[-1] = I(r.choice(["int", "long", "double", "voidp"]))
+            sg["vaargs"] = [r.choice(VAARG_TYPES) for _ in range(r.randint(0, 4))]
+        if kind == "call":
+            args = [self.arg_for(p) for p in params]
+            if variadic:
+                for _ in range(r.choice([0, 0, 1, 2, 3, 5])):
+                    args.append(self.ptype(allow_valist=False))
+            sg["args"] = args
+        return sg
+
+
+FUNC_RE = re.compile(r"^function (?:(\S+) )?\$(\w+)\((.*)\) \{$")
+CALL_RE = re.compile(r"^\t(?:%\S+ =(\S+) )?call \$(\w+)\((.*)\)$")
+VAARG_RE = re.compile(r"^\t%\S+ =(\S+) vaarg ")
+
+
+def real_cls(c, defs):
+    if c is None:
+        return "-"
+    if c.startswith(":"):
+        if c[1:] not in defs:
+            return "?undefined" + c
+        return ":" + canon(defs[c[1:]])
+    return c
+
+
+def parse_module_sigs(text):
+    """-> (type defs, functions: name -> dict(ret, params, vaargs, vastart), calls: callee -> (ret, args))"""
+    defs, errs = parse_types(text)
+    funcs, calls = {}, {}
+    cur = None
+    for ln in text.splitlines():
+        m = FUNC_RE.match(ln)
+        if m:
+            ps = [p.strip() for p in m.group(3).split(",")] if m.group(3).strip() else []
+            cur = {"ret": m.group(1), "params": ["..." if p == "..." else p.split()[0] for p in ps], "vaargs": [], "vastart": 0}
+            funcs[m.group(2)] = cur
+            continue
+        if ln == "}":
+            cur = None
+            continue
+        m = CALL_RE.match(ln)
+        if m:
+            args = [a.strip() for a in m.group(3).split(",")] if m.group(3).strip() else []
+            calls[m.group(2)] = (m.group(1), ["..." if a == "..." else a.split()[0] for a in args])
+            continue
+        if cur is not None:
+            m = VAARG_RE.match(ln)
+            if m:
+                cur["vaargs"].append(m.group(1))
+            elif ln.startswith("\tvastart "):
+                cur["vastart"] += 1
+    return defs, errs, funcs, calls
+
+
+def compare_sig(real, model_ln, sg, defs):
+    """real: [ret, cls...] as canonical strings.  -> (kind, detail); kind: ok | subword | diff | notok"""
+    if not model_ln.startswith("ok "):
+        return "diff", {"real": real, "model": model_ln}
+    ms, ss = model_ln[3:].split(" | ")
+    model = ms.split(" ; ")
+    spec = ss.split(" ; ")
+    bad, sub = [], []
+    if len(real) != len(spec):
+        bad.append("%d classes instead of %d" % (len(real), len(spec)))
+    else:
+        for i, (r, s) in enumerate(zip(real, spec)):
+            if r == s:
+                continue
+            if s in ("ub", "sb", "uh", "sh") and r == "w":
+                sub.append(i)
+            else:
+                bad.append("position %d (0 = return): class %s, the C type demands %s" % (i, r[:80], s[:80]))
+    if real != model:
+        return "diff", {"real": real, "model": model, "spec": spec, "not_ok": bad or None}
+    if bad:
+        return "notok", {"real": real, "spec": spec, "not_ok": bad}
+    if sub:
+        return "subword", {"real": real, "spec": spec, "positions": sub}
+    return "ok", None
+
+
+def sig_batch(job):
+    """job: dict(id, dir, cproc, drv, pool={tid: t}, sigs=[(k, sig)], targets)"""
+    d = job["dir"]
+    os.makedirs(d, exist_ok=True)
+    pool = job["pool"]
+    used = set()
+
+    def refs(t):
+        if t is None:
+            return
+        if t[0] == "ref":
+            used.add(t[1])
+        elif t[0] == "arr":
+            refs(t[1])
+    for k, sg in job["sigs"]:
+        for t in [sg["ret"]] + sg["params"] + (sg["args"] or []):
+            refs(t)
+    src = PRELUDE + "".join(type_def(tid, pool[tid]) for tid in sorted(used))
+    src += "".join(sig_c(k, sg, pool) for k, sg in job["sigs"])
+    pc = os.path.join(d, "s%d.c" % job["id"])
+    open(pc, "w").write(src)
+    lines, index = [], {}
+    for k, sg in job["sigs"]:
+        for tg in job["targets"]:
+            ls = sig_drv(tg, sg, pool)
+            index[(k, tg)] = (len(lines), len(ls))
+            lines += ls
+    r = subprocess.run([job["drv"]], input="\n".join(lines) + "\n", stdout=subprocess.PIPE, stderr=subprocess.PIPE, text=True)
+    dl = r.stdout.splitlines()
+    if r.returncode != 0 or len(dl) != len(lines):
+        return {"broken": "drv_c08 failed on signatures: " + r.stderr[-300:]}
+    if any(x == "bad-op" for x in dl):
+        return {"broken": "drv_c08 cannot answer `%s`" % lines[dl.index("bad-op")][:300]}
+    events, counts = [], {}
+    for tg in job["targets"]:
+        rc, out, err = run_tool([job["cproc"], "-t", tg], pc)
+        if rc != 0:
+            events.append({"kind": "sig-rejected", "target": tg, "stderr": err.strip()[-300:], "ks": [k for k, _ in job["sigs"]]})
+            continue
+        defs, errs, funcs, calls = parse_module_sigs(out)
+        for k, sg in job["sigs"]:
+            a, n = index[(k, tg)]
+            counts["sig-evaluations"] = counts.get("sig-evaluations", 0) + 1
+            if sg["kind"] == "call":
+                got = calls.get("g%d" % k)
+                real = None if got is None else [real_cls(got[0], defs)] + [x if x == "..." else real_cls(x, defs) for x in got[1]]
+            else:
+                got = funcs.get(("f%d" if sg["kind"] == "def" else "h%d") % k)
+                real = None if got is None else [real_cls(got["ret"], defs)] + [x if x == "..." else real_cls(x, defs) for x in got["params"]]
+            if real is None:
+                events.append({"kind": "sig-missing", "k": k, "target": tg})
+                continue
+            kind, det = compare_sig(real, dl[a], sg, defs)
+            if kind in ("ok", "subword") and sg["kind"] == "vadef":
+                want = [x[3:] if x.startswith("ok ") else x for x in dl[a + 1:a + n]]
+                if got["vaargs"] != want or got["vastart"] != 1:
+                    kind, det = "diff", {"real": real, "vaarg_real": got["vaargs"], "vaarg_model": want,
+                                         "vastart": got["vastart"], "not_ok": None}
+            counts["sig-" + kind] = counts.get("sig-" + kind, 0) + 1
+            if kind != "ok":
+                events.append({"kind": "sig-" + kind, "k": k, "target": tg, "detail": det})
+    return {"events": events, "counts": counts}
+
+
+def sig_variants(sg):
+    n = len(sg["params"])
+    for i in range(n):
+        if sg["kind"] == "vadef" and (i == 0 or n == 1):
+            continue
+        if sg["variadic"] and n == 1:
+            continue
+        v = dict(sg, params=sg["params"][:i] + sg["params"][i + 1:])
+        if sg["args"] is not None:
+            v["args"] = sg["args"][:i] + sg["args"][i + 1:]
+        yield v
+    if sg["args"] is not None:
+        for i in range(n, len(sg["args"])):
+            yield dict(sg, args=sg["args"][:i] + sg["args"][i + 1:])
+    if sg["vaargs"]:
+        for i in range(len(sg["vaargs"])):
+            yield dict(sg, vaargs=sg["vaargs"][:i] + sg["vaargs"][i + 1:])
+    if sg["ret"] is not None and sg["kind"] != "vadef":
+        yield dict(sg, ret=None)
+        if sg["ret"] != I("int"):
+            yield dict(sg, ret=I("int"))
+    for i in range(n):
+        if sg["params"][i] != I("int"):
+            v = dict(sg, params=sg["params"][:i] + [I("int")] + sg["params"][i + 1:])
+            if sg["args"] is not None:
+                v["args"] = sg["args"][:i] + [I("int")] + sg["args"][i + 1:]
+            yield v
+    if sg["args"] is not None:
+        for i in range(len(sg["args"])):
+            if i < n and sg["args"][i] != sg["params"][i]:
+                yield dict(sg, args=sg["args"][:i] + [sg["params"][i]] + sg["args"][i + 1:])
+            elif i >= n and sg["args"][i] != I("int"):
+                yield dict(sg, args=sg["args"][:i] + [I("int")] + sg["args"][i + 1:])
+
+
+SIG_BAD = ("sig-diff", "sig-notok", "sig-missing", "sig-rejected")
+
+
+def probe_sig(ck, cproc, sg, pool, tg):
+    job = {"id": 0, "dir": os.path.join(ck.scratch(), "shrink"), "cproc": cproc, "drv": ck.drv_path(), "pool": pool,
+           "sigs": [(0, sg)], "targets": [tg]}
+    try:
+        res = sig_batch(job)
+    except Exception:
+        return None
+    for ev in res.get("events", []):
+        if ev["kind"] in SIG_BAD:
+            return ev
+    return None
+
+
+def sig_program(k, sg, pool):
+    used = []
+
+    def refs(t):
+        if t is not None and t[0] == "ref" and t[1] not in used:
+            used.append(t[1])
+        elif t is not None and t[0] == "arr":
+            refs(t[1])
+    for t in [sg["ret"]] + sg["params"] + (sg["args"] or []):
+        refs(t)
+    return PRELUDE + "".join(type_def(tid, pool[tid]) for tid in used) + sig_c(k, sg, pool)
+
+
+def handle_sig_event(ck, cproc, sg, pool, ev):
+    tg = ev["target"]
+    if ev["kind"] == "sig-subword":
+        ck.report({"kind": "signature", "target": tg, "program": sig_program(ev["k"], sg, pool), "detail": ev["detail"],
+                   "what": "sub-word integer parameter/argument/return value has class w (QBE's ABI classes sb/ub/sh/uh "
+                           "exist for interoperation with C)"}, fid=FID_SUBWORD)
+        return
+    if len(ck.violations) >= 3:
+        ck.violations.append(None)
+        return
+    best, k = ev, ev.get("k", 0)
+    cur = probe_sig(ck, cproc, sg, pool, tg)
+    if cur is not None:
+        best, k = cur, 0
+        budget, progress = 150, True
+        while progress and budget > 0:
+            progress = False
+            for v in sig_variants(sg):
+                budget -= 1
+                if budget <= 0:
+                    break
+                e2 = probe_sig(ck, cproc, v, pool, tg)
+                if e2 is not None:
+                    sg, best, progress = v, e2, True
+                    break
+    rp = {"kind": "signature", "target": tg, "program": sig_program(k, sg, pool), "drv": sig_drv(tg, sg, pool),
+          "detail": best.get("detail"), "stderr": best.get("stderr")}
+    kind = best["kind"]
+    if kind == "sig-notok" or (kind == "sig-diff" and best["detail"].get("not_ok")):
+        rp["what"] = ("the emitted %s does not carry the classes the C declaration demands: %s"
+                      % ("call" if sg["kind"] == "call" else "function signature", "; ".join(best["detail"]["not_ok"])))
+        ck.violation(rp)
+    elif kind == "sig-diff":
+        rp["what"] = "emitfunc/funcexpr(EXPRCALL)/emitinst and Model/AbiDesc.lean disagree although the classes are what the C declaration demands"
+        rp["theorem"] = "CprocVerif.C08.param_class_correct_partial / vararg_marker_pos / promotion_of_variadic_args"
+        ck.violation(rp, nofail=True)
+    elif kind == "sig-missing":
+        rp["what"] = "no function definition / call instruction found in the output for this declaration"
+        ck.violation(rp)
+    else:
+        rp["what"] = "valid program rejected: %s" % best.get("stderr")
+        ck.violation(rp)
+
+
+def run_sig_batches(ck, cproc, pool, sigs, label, batch=40):
+    d = os.path.join(ck.scratch(), label)
+    idx = list(enumerate(sigs))
+    jobs = []
+    for k in range(0, len(idx), batch):
+        jobs.append({"id": len(jobs), "dir": d, "cproc": cproc, "drv": ck.drv_path(), "pool": pool,
+                     "sigs": idx[k:k + batch], "targets": TARGETS})
+    with concurrent.futures.ProcessPoolExecutor(max_workers=min(common.NPROC, 16)) as ex:
+        for job, res in zip(jobs, ex.map(sig_batch, jobs)):
+            if "broken" in res:
+                raise Broken(res["broken"])
+            for k, v in res["counts"].items():
+                ck.kb[k] = ck.kb.get(k, 0) + v
+            by = dict(job["sigs"])
+            for ev in res["events"]:
+                ck.kb["ev:" + ev["kind"]] = ck.kb.get("ev:" + ev["kind"], 0) + 1
+                if ev["kind"] == "sig-rejected":
+                    # find the rejected declaration(s) of the batch
+                    for k, sg in job["sigs"]:
+                        e2 = probe_sig(ck, cproc, sg, pool, ev["target"])
+                        if e2 is not None:
+                            handle_sig_event(ck, cproc, sg, pool, dict(e2, k=0))
+                            break
+                    else:
+                        ck.violation({"kind": "signature", "target": ev["target"], "stderr": ev["stderr"],
+                                      "what": "a batch of valid declarations is rejected as a whole"})
+                else:
+                    handle_sig_event(ck, cproc, by[ev["k"]], pool, ev)
+
+
+CORPUS_SIGS = [
+    # fixed 68737d2: printf("x") must carry the marker
+    {"kind": "call", "ret": I("int"), "params": [I("charpp")], "variadic": True, "args": [I("charpp")], "vaargs": None},
+    {"kind": "call", "ret": I("int"), "params": [I("charpp")], "variadic": True, "vaargs": None,
+     "args": [I("charpp"), I("char"), I("float"), I("short"), I("_Bool"), I("uchar"), I("ushort"), I("long"), I("double"), ("arr", I("int"), 3)]},
+    {"kind": "call", "ret": None, "params": [], "variadic": False, "args": [], "vaargs": None},
+    # known finding subword-arg-not-extended
+    {"kind": "call", "ret": I("int"), "params": [I("uchar")], "variadic": False, "args": [I("int")], "vaargs": None},
+    {"kind": "def", "ret": I("uchar"), "params": [I("int"), I("uchar"), I("short"), I("_Bool"), I("float"), ("arr", I("char"), 4), I("fnp")],
+     "variadic": False, "args": None, "vaargs": None},
+    {"kind": "def", "ret": None, "params": [I("valist"), I("int")], "variadic": False, "args": None, "vaargs": None},
+    {"kind": "call", "ret": None, "params": [I("valist"), I("int")], "variadic": False, "args": [I("valist"), I("int")], "vaargs": None},
+    {"kind": "vadef", "ret": I("int"), "params": [I("int")], "variadic": True, "args": None, "vaargs": ["int", "double", "voidp", "ulong"]},
+    {"kind": "def", "ret": I("double"), "params": [I("int")] * 12, "variadic": True, "args": None, "vaargs": None},
+]
+
+
+# ------------------------------------------------------------------ small fixed probes
+def run_fixed_probes(ck, cproc):
+    """long double (qbetype: fatal), va_arg of a non-scalar (diagnosed), va_list per target"""
+    d = os.path.join(ck.scratch(), "fixed")
+    os.makedirs(d, exist_ok=True)
+    n = 0
+    probes = [
+        ("ldouble-member", "struct L { long double x; }; void g(struct L); void f(struct L *p) { g(*p); }\n",
+         "type x86_64-sysv S { m x 0 ldouble }", "fatal", "long double is not yet supported"),
+        ("ldouble-param", "void g(long double); void f(long double *p) { g(*p); }\n",
+         "call x86_64-sysv 0 void ; ldouble | ldouble", "fatal", "long double is not yet supported"),
+        ("vaarg-struct", "struct S { int a; }; int f(int n, ...) { __builtin_va_list ap; __builtin_va_start(ap, n); "
+         "struct S s = __builtin_va_arg(ap, struct S); return s.a; }\n",
+         "vaarg x86_64-sysv S { m a 0 int }", "error", "va_arg with non-scalar type is not yet supported"),
+    ]
+    for name, src, op, want, msg in probes:
+        p = os.path.join(d, name + ".c")
+        open(p, "w").write(src)
+        m = ck.run_drv(op + "\n")[0]
+        for tg in TARGETS:
+            rc, out, err = run_tool([cproc, "-t", tg], p)
+            ck.count(("fixed", name, tg))
+            n += 1
+            rp = {"kind": "unsupported-construct", "target": tg, "program": src, "model": m, "rc": rc, "stderr": err[-300:]}
+            if rc == 0:
+                rp["what"] = "a construct without QBE representation is compiled instead of being diagnosed (%s)" % msg
+                ck.violation(rp)
+                return n
+            if m != want or msg not in err:
+                rp["what"] = "qbe.c and Model/AbiDesc.lean disagree on how this construct is refused"
+                rp["theorem"] = "CprocVerif.C08 (model of qbetype/IVAARG)"
+                ck.violation(rp, nofail=True)
+                return n
+    for tg in TARGETS:
+        ln = ck.run_drv("valist %s\n" % tg)[0]
+        a, b = [x.strip() for x in ln.split("|")]
+        ck.count(("valist", tg))
+        n += 1
+        if a != b:
+            ck.violation({"kind": "valist", "target": tg, "targ.c": a, "psABI": b,
+                          "what": "targ.c describes va_list with a kind/size/alignment other than the psABI's",
+                          "theorem": "CprocVerif.C08.valist_per_target"}, nofail=True)
+    return n
+
+
+def totuple(x):
+    return tuple(totuple(y) for y in x) if isinstance(x, list) else x
+
+
+def load_sig(e):
+    return {"kind": e["kind"], "ret": totuple(e["ret"]) if e["ret"] else None, "params": [totuple(p) for p in e["params"]],
+            "variadic": e["variadic"], "args": [totuple(a) for a in e["args"]] if e["args"] is not None else None,
+            "vaargs": e["vaargs"]}
+
+
+def sig_hist(sg, h):
+    bump(h, "kind:" + sg["kind"] + (":variadic" if sg["variadic"] else ""))
+    bump(h, "nparams:%02d" % len(sg["params"]))
+    for t in [sg["ret"]] + sg["params"]:
+        bump(h, "type:" + ("void" if t is None else "aggregate" if t[0] == "ref" else "array-param" if t[0] == "arr" else t[1]))
+    if sg["args"] is not None:
+        bump(h, "extra-args:%d" % (len(sg["args"]) - len(sg["params"])))
+        for a in sg["args"][len(sg["params"]):]:
+            bump(h, "extra:" + ("aggregate" if a[0] == "ref" else "array" if a[0] == "arr" else a[1]))
+
+
+def run(ck):
+    ck.cov["rule"] = (
+        "K-B on three targets (x86_64-sysv, aarch64, riscv64).  Types: generated struct/union definitions (all integer "
+        "types incl. _Bool and enums, float, double, object and function pointers; arrays incl. multi-dimensional and of "
+        "aggregates; nesting <= 3; anonymous members; bit-fields of every base type and width; sizes 1..64 bytes and "
+        "larger) passed by value; the emitted `type` definitions are parsed, names resolved, compared with "
+        "Model/AbiDesc.emittype (drv_c08) and, independently, laid out under QBE's documented rules and compared with the "
+        "C layout observed from gcc (x86-64) and clang --target (three targets): sizeof, _Alignof, offset/size/kind of "
+        "every scalar leaf, bit-fields by their storage unit (same floating fields, same bytes covered by integer "
+        "fields).  Main stream avoids the recorded defective classes; one deliberate stream per recorded finding "
+        "(packed, _Alignas, unnamed bit-fields, flexible arrays, va_list members, mixed bit-field units).  Signatures: "
+        "function definitions and calls with <= 12 parameters (scalars, arrays, va_list, aggregates by value), any "
+        "return type, variadic calls with promotable arguments (char/short/_Bool/float/enum/array/aggregate), variadic "
+        "definitions with va_start/va_arg; `function`/`call`/`vaarg` lines parsed and compared with the model and with "
+        "the classes Spec/QbeLayout.abiClass demands (marker position, promotions, sub-word classes).  "
+        "distinct_nontrivial counts distinct type/signature descriptions.")
+    ck.lean_build()
+    if not ck.proofs_ok:
+        ck.notes.append("Props.C08 does not build; searching for a failing input")
+    if not ck.drv_ok:
+        raise Broken("drv_c08 does not build: " + ck.build_log[-1500:])
+    cproc = ck.build_cproc_qbe()
+    ck.kb = {}
+    rng = ck.rng
+    quick = ck.quick
+    # 1. corpus: fixed-defect witnesses, then the recorded witnesses and boundary shapes
+    cfile = os.path.join(common.VERIF, "corpus", "C08", "witnesses.json")
+    corp = json.load(open(cfile)) if os.path.exists(cfile) else {"sigs": [], "types": []}
+    csigs = [load_sig(e) for e in corp.get("sigs", [])] + CORPUS_SIGS
+    ctypes = [totuple(e["type"]) for e in corp.get("types", [])] + [t for _, t in CORPUS_TYPES]
+    run_sig_batches(ck, cproc, {}, csigs, "corpus-sig", batch=4)
+    run_type_batches(ck, cproc, ctypes, "corpus", batch=4)
+    nfixed = run_fixed_probes(ck, cproc) if not ck.violations else 0
+    # 2. types
+    hist, depth_h, size_h, mix_h = {}, {}, {}, {}
+    n_main = 900 if quick else 30000
+    n_side = 60 if quick else 1500
+    pool = {}
+    for mode in ("main", "bitmix", "packed", "alignas", "unnamed", "flex", "valist"):
+        if ck.violations:
+            break
+        g = TGen(rng, mode)
+        types = [g.toplevel() for _ in range(n_main if mode == "main" else n_side)]
+        for t in types:
+            c06.kinds_hist(t, hist)
+            bump(depth_h, c06.t_depth(t))
+            bump(mix_h, "+".join(sorted(t_float_mix(t))))
+            ck.count(c06.key64(drv_type(t)))
+        flags, sizes = run_type_batches(ck, cproc, types, "rand-" + mode)
+        ck.kb["flagfree:" + mode] = sum(1 for f in flags.values() if not f)
+        for i, s in sizes.items():
+            bump(size_h, "%s:%s" % (mode if mode == "main" else "side", "1-8" if s <= 8 else "9-16" if s <= 16 else "17-32" if s <= 32 else "33-64" if s <= 64 else "65+"))
+        if mode == "main":
+            ck.sample({"type": type_def(0, types[3])[:500], "drv": drv_type(types[3])[:300]})
+            for i, t in enumerate(types):
+                if not flags.get(i) and sizes.get(i, 999) <= 96 and len(pool) < 400:
+                    pool[len(pool)] = t
+    # 3. signatures and call sites
+    shist = {}
+    if not ck.violations:
+        sg = SGen(rng, sorted(pool))
+        n_sig = 500 if quick else 12000
+        sigs = [sg.sig(rng.choice(["def", "def", "call", "call", "call", "vadef"])) for _ in range(n_sig)]
+        for s in sigs:
+            sig_hist(s, shist)
+            ck.count(c06.key64(repr(s)))
+        ck.sample({"signature": sig_program(0, sigs[5], pool)[-600:], "drv": sig_drv("x86_64-sysv", sigs[5], pool)})
+        run_sig_batches(ck, cproc, pool, sigs, "sigs")
+    if not ck.kb.get("oracle"):
+        raise Broken("no type was laid out by gcc/clang: %s" % ck.kb.get("oracle_problems"))
+    ck.cov["kb_stats"] = dict(ck.kb)
+    ck.cov["fixed_probes"] = nfixed
+    ck.cov["input_histogram"] = dict(sorted(hist.items()))
+    ck.cov["nesting_depth_histogram"] = dict(sorted(depth_h.items()))
+    ck.cov["size_histogram"] = dict(sorted(size_h.items()))
+    ck.cov["int_float_mix_histogram"] = dict(sorted(mix_h.items()))
+    ck.cov["signature_histogram"] = dict(sorted(shist.items()))
+    ck.cov["targets"] = TARGETS
+    ck.cov["pool_types_used_by_value_in_signatures"] = len(pool)
+    if not ck.proofs_ok and not ck.violations:
+        ck.violation({"kind": "proof-broken", "theorem": "CprocVerif.Props.C08 (lake build failed)",
+                      "log": ck.build_log[-3000:]}, nofail=True)
+    ck.assumptions = [
+        "QBE lays a `type` definition out as its IL reference documents (Spec/QbeLayout.lean) and maps a faithful "
+        "description and class list to the registers/stack slots of the psABI: no QBE backend exists in the sandbox, so "
+        "mixed executables are not run (the dynamic half of the property is not decided)",
+        "gcc 12 (x86-64) and clang 14 --target={x86_64,aarch64,riscv64}-linux-gnu implement the platform ABIs (oracles for "
+        "the C layout); a bit-field contributes its declared type's storage unit",
+        "the parser delivers the declared parameter/argument types to qbe.c (exercised through K-B only)",
+    ]
+
+
+META = {
+    "category": "proof",
+    "text": ("Lean 4 theorems over a transliteration of qbe.c's emittype (member loop with the bit-field storage-unit scan, "
+             "arrays, unions, opaque va_list), qbetype/emitclass, emitfunc, funcexpr(EXPRCALL)/emitinst(ICALL), typeadjust and "
+             "the argument promotions: for every struct/union type of the member language (unbounded nesting and member "
+             "count) outside the recorded defective classes, QBE's documented reading of the emitted definition has the size "
+             "and alignment of the C type and the same scalar fields at the same offsets with the same int/float kind "
+             "(bit-fields of one storage unit merged); the variadic marker sits after the named arguments; variadic "
+             "arguments carry the class of their default-argument-promoted type; every parameter/return class is the class "
+             "of the adjusted C type (sub-word integers excepted: recorded finding); va_list has the psABI's kind, size and "
+             "alignment on each target.  Each full statement that is false today is refuted by a concrete witness.  Tied to "
+             "/repo on every run by compiling generated types, definitions and calls for all three targets and comparing the "
+             "parsed type/function/call lines with the model and, via an independent layout of the real definition, with the "
+             "C layout observed from gcc and clang --target."),
+    "design_ref": "DESIGN.md section 4, C08",
+    "note": ("Decides the property's second formulation (descriptor faithfulness) only: there is no QBE backend in the "
+             "sandbox, so no mixed executable is run on any target (the x86-64 dynamic check is skipped, not emulated); that "
+             "QBE maps a faithful description to the psABI's registers is trusted.  Trusted further: Lean kernel + standard "
+             "axioms; the hand-written model (tied by the differential run); gcc/clang as layout oracles; the Python "
+             "generators/parsers.  Not modelled: the declaration parser, K&R definitions, function-typed parameters, "
+             "bit-field arguments (C05 covers their promotion), GNU zero-length arrays."),
+    "technique": "Lean 4 proof (induction over member lists and the type tree) + differential correspondence + oracle validation",
+}
